@@ -52,14 +52,21 @@ class NameModeLayout(Suite):
     model = ''
 
     def gen(self, rng, tier):
-        return [dict(cfg=c, data=d) for c in ('exp', 'exp.v2', 'a.b.c', 'run_1') for d in ('json', 'dir', 'memory')]
+        return ([dict(cfg=c, data=d) for c in ('exp', 'exp.v2', 'a.b.c', 'run_1') for d in ('json', 'dir', 'memory')] +
+                # one part of a multi-part config file: the name is <file stem>#<part>
+                [dict(cfg='exp', part=pt, data=d) for pt in ('small', 'large') for d in ('json', 'dir', 'memory')])
 
     def run_impl(self, case):
         from pathlib import Path
         from .. import pipeline as pl
         from ..suites_chain import K
         classes = [dict(K(0, 'Leaf', group='g', data=case['data']), name='leaf')]
-        full = dict(classes=classes, files={f'{case["cfg"]}.json': {'tasks': ['@M.*']}}, base={'file': f'{case["cfg"]}.json'}, context=None)
+        if case.get('part'):
+            full = dict(classes=classes, files={f'{case["cfg"]}.json': {'configs': {'small': {'tasks': ['@M.*'], 'main_part': True},
+                                                                                  'large': {'tasks': ['@M.*']}}}},
+                        base={'file': f'{case["cfg"]}.json#{case["part"]}'}, context=None)
+        else:
+            full = dict(classes=classes, files={f'{case["cfg"]}.json': {'tasks': ['@M.*']}}, base={'file': f'{case["cfg"]}.json'}, context=None)
         with pl.workspace(full) as (d, mod):
             ch = pl.build_config(full, mod).chain(parameter_mode=False)
             t = ch['leaf']
@@ -74,7 +81,7 @@ class NameModeLayout(Suite):
             return f'unexpected exception {obs["unexpected_exception"]}: {obs["text"]}'
         from pathlib import PurePosixPath
         ext = {'json': '.json', 'dir': '', 'memory': ''}[case['data']]
-        result = PurePosixPath('g/leaf') / (case['cfg'] + ext)
+        result = PurePosixPath('g/leaf') / (case['cfg'] + (f'#{case["part"]}' if case.get('part') else '') + ext)
         want = {str(result.parent / f'{result.stem}.run_info.yaml'), str(result.parent / f'{result.stem}.log')}
         if case['data'] != 'memory':
             want.add(str(result))
@@ -161,7 +168,8 @@ Definition naming_model (c : str * option str * str * option str * (option str *
             plain = make(Task, case['group'] if case['group'] else None)
             cfg = types.SimpleNamespace(namespace=case['ns'])
             return dict(names=[plain.slugname, plain.fullname(cfg), make(ModuleTask, None).slugname,
-                               make(DoubleModuleTask, case['mgroup']).slugname])
+                               make(DoubleModuleTask, case['mgroup']).slugname],
+                        module_task_with_group=make(ModuleTask, case['mgroup'] or 'own').slugname)
         finally:
             for n in made:
                 sys.modules.pop(n, None)
@@ -191,6 +199,9 @@ Definition naming_model (c : str * option str * str * option str * (option str *
                 want.append(f'{g}:{base}' if g else base)
         if obs['names'] != want:
             return f'{case}: the names are {obs["names"]}; the naming rule of release 1.4.0 gives {want}'
+        if obs.get('module_task_with_group') != want[2]:
+            return (f'{case}: a ModuleTask whose Meta sets task_group is named {obs.get("module_task_with_group")}; release 1.4.0 '
+                    f'takes the group of a ModuleTask from its module: {want[2]}')
         return None
 
     def nontrivial(self, case, obs):
